@@ -140,6 +140,16 @@ def run(ctx, widen=False):
     vprogs += [pos.replace("{}", "".join(t)) for pos in ("←{}", "→{}", "⟨←{}⟩", "λ→{};") for L in (1, 2) for t in itertools.product(ADV, repeat=L)]
     vprogs += ["".join(rng.choice(cp + "→←→←") for _ in range(rng.randint(1, 30))) for _ in range(nr // 4)]
     ctx.bump("programs transpiled with the V flag", len(vprogs))
+    # the Lean lexer in V mode (object of lexV_variable_letters) against the real lexer with variables_as_digraphs=True
+    import vy as _vy
+    from vyxal import lexer as _lexer
+    vsub = [v for v in vprogs if all(ord(ch) < 0x110000 and not (0xD800 <= ord(ch) <= 0xDFFF) for ch in v)][:: (1 if thorough else 3)]
+    vout = ctx.driver(["tokV\t" + _vy.cps(v) for v in vsub])
+    ctx.count("corr:lexer-V", len(vsub))
+    for v, o in zip(vsub, vout):
+        e = _vy.show_tokens(_lexer.tokenise(v, True))
+        if e != o:
+            ctx.disagree("lexer-V", v, e, o)
     progs += ["\x00V:" + v for v in vprogs]
     progs = list(dict.fromkeys(progs))
     ctx.check_many("constants_only", progs)
